@@ -125,6 +125,16 @@ func execTtl(in ttlInput, scratch string) (Case, error) {
 		case "sleep":
 			time.Sleep(time.Duration(op.Ms) * time.Millisecond)
 			continue
+		case "visitor":
+			// another handle of the bucket comes and goes: nothing of the bucket's may change - in particular the
+			// expiry timer, which all handles share, keeps running
+			if v, err := rosmar.OpenBucket(url, name, rosmar.CreateOrOpen); err == nil {
+				if ds, err := v.NamedDataStore(dsName("_default._default")); err == nil {
+					_, _, _ = ds.GetRaw("k1")
+				}
+				v.Close(ctxBg)
+			}
+			continue
 		case "reopen":
 			if !in.OnDisk {
 				c.Discard = "reopen of an in-memory bucket"
@@ -271,6 +281,9 @@ func genTtl(r *rand.Rand) ttlInput {
 	n := 2 + r.Intn(4)
 	for i := 0; i < n; i++ {
 		in.Ops = append(in.Ops, first())
+	}
+	if r.Intn(2) == 0 {
+		in.Ops = append(in.Ops, ttlOp{Kind: "visitor"})
 	}
 	in.Ops = append(in.Ops, ttlOp{Kind: "sleep", Ms: 300 + r.Intn(300)})
 	m := r.Intn(4)
